@@ -10,6 +10,8 @@ import (
 	"errors"
 	"fmt"
 	"net/http/httptest"
+	"regexp"
+	"strings"
 
 	"github.com/getkin/kin-openapi/openapi3"
 	"github.com/getkin/kin-openapi/openapi3filter"
@@ -81,6 +83,99 @@ func c07Loaded(meta *Meta) {
 						} else if !noAuth && asked == 0 && target == "/p?x-id=5" {
 							meta.GoViolation = append(meta.GoViolation, map[string]any{"signature": "loaded-document:callback-not-asked", "cases": []any{desc},
 								"go_observation": "the authentication callback was never asked about the scheme", "judgement": "the declared requirement was not evaluated"})
+						}
+					}
+				}
+			}
+		}
+	}
+}
+
+// a parameter described by `content`, at path or operation level, in a document loaded from YAML with
+// and without origins recorded; and a caller-supplied regex engine applied to the body while a
+// parameter shares the pattern text (each part is judged by the engine the library documents for it)
+func c07LoadedExtras(meta *Meta) {
+	viol := func(sig string, c any, detail string) {
+		meta.Histogram["oracle:"+sig]++
+		meta.GoViolation = append(meta.GoViolation, map[string]any{"signature": sig, "cases": []any{c}, "go_observation": detail, "judgement": sig + ": " + detail})
+	}
+	for _, level := range []string{"operation", "path"} {
+		for _, origins := range []bool{false, true} {
+			param := `{"name":"filter","in":"query","content":{"application/json":{"schema":{"type":"object","required":["a"],"properties":{"a":{"type":"integer"}}}}}}`
+			opParams, pathParams := `[]`, `[]`
+			if level == "operation" {
+				opParams = `[` + param + `]`
+			} else {
+				pathParams = `[` + param + `]`
+			}
+			text := "# yaml\n" + `{"openapi":"3.0.3","info":{"title":"t","version":"1"},"paths":{"/p":{"parameters":` + pathParams + `,"get":{"parameters":` + opParams + `,"responses":{"200":{"description":"ok"}}}}}}`
+			desc := map[string]any{"content_parameter_level": level, "include_origin": origins}
+			meta.Histogram["loaded documents"]++
+			openapi3.IncludeOrigin = origins
+			var doc *openapi3.T
+			var err error
+			p := catchPanic(func() { doc, err = openapi3.NewLoader().LoadFromData([]byte(text)) })
+			openapi3.IncludeOrigin = false
+			if p != nil || err != nil {
+				viol("loaded-document:does-not-load", desc, fmt.Sprint(p, err))
+				continue
+			}
+			router, err := gorillamux.NewRouter(doc)
+			if err != nil {
+				continue
+			}
+			for target, want := range map[string]bool{`/p?filter={"a":1}`: true, `/p?filter={"a":"x"}`: false, `/p`: true} {
+				req := httptest.NewRequest("GET", "/p", nil)
+				if len(target) > 2 {
+					q := req.URL.Query()
+					q.Set("filter", target[len("/p?filter="):])
+					req.URL.RawQuery = q.Encode()
+				}
+				route, pp, err := router.FindRoute(req)
+				if err != nil {
+					continue
+				}
+				var verr error
+				if p := catchPanic(func() {
+					verr = openapi3filter.ValidateRequest(context.Background(), &openapi3filter.RequestValidationInput{Request: req, PathParams: pp, Route: route})
+				}); p != nil {
+					viol("loaded-document:panic", desc, fmt.Sprint(p))
+				} else if (verr == nil) != want {
+					viol("loaded-document:verdict", desc, fmt.Sprintf("target %s: got error %v", target, verr))
+				}
+			}
+		}
+	}
+	// the body is judged by the engine the caller supplied, whatever engine a parameter with the same pattern text was judged by
+	{
+		text := `{"openapi":"3.0.3","info":{"title":"t","version":"1"},"components":{"schemas":{"Code":{"type":"string","pattern":"^[A-Z]+$"}}},` +
+			`"paths":{"/p":{"post":{"parameters":[{"name":"q","in":"query","schema":{"$ref":"#/components/schemas/Code"}}],` +
+			`"requestBody":{"content":{"application/json":{"schema":{"type":"object","properties":{"code":{"$ref":"#/components/schemas/Code"}}}}}},"responses":{"200":{"description":"ok"}}}}}}`
+		doc, err := openapi3.NewLoader().LoadFromData([]byte(text))
+		if err == nil {
+			if router, err := gorillamux.NewRouter(doc); err == nil {
+				ci := func(expr string) (openapi3.RegexMatcher, error) { return regexp.Compile("(?i)" + expr) }
+				for round := 0; round < 3; round++ {
+					for _, tc := range []struct {
+						q, body string
+						engine  bool
+						want    bool
+					}{{"ABC", `{"code":"abc"}`, true, true}, {"ABC", `{"code":"abc"}`, false, false}, {"ABC", `{"code":"ABC"}`, false, true}, {"ABC", `{"code":"a1"}`, true, false}} {
+						req := httptest.NewRequest("POST", "/p?q="+tc.q, strings.NewReader(tc.body))
+						req.Header.Set("Content-Type", "application/json")
+						route, pp, err := router.FindRoute(req)
+						if err != nil {
+							continue
+						}
+						opts := &openapi3filter.Options{}
+						if tc.engine {
+							opts.RegexCompiler = ci
+						}
+						meta.Histogram["loaded documents"]++
+						verr := openapi3filter.ValidateRequest(context.Background(), &openapi3filter.RequestValidationInput{Request: req, PathParams: pp, Route: route, Options: opts})
+						if (verr == nil) != tc.want {
+							viol("loaded-document:regex-engine", map[string]any{"query": tc.q, "body": tc.body, "case_insensitive_engine_supplied": tc.engine, "round": round},
+								fmt.Sprintf("expected accepted=%v, got error %v", tc.want, verr))
 						}
 					}
 				}
